@@ -426,6 +426,16 @@ void svt_av1_scan_tiles(EbDecHandle *dec_handle_ptr, TilesInfo *tiles_info, ObuH
             tile_size = obu_header->payload_size;
         else {
             tile_size = dec_get_bits_le(bs, tiles_info->tile_size_bytes) + 1;
+            if (tile_size + tiles_info->tile_size_bytes > obu_header->payload_size) {
+                /* corrupt tile size: mark this and the remaining tiles empty so that
+                 * start_parse_tile() rejects them instead of reading outside the payload */
+                for (; tile_num <= tg_end; tile_num++) {
+                    parse_tile_data[tile_num].data      = get_bitsteam_buf(bs);
+                    parse_tile_data[tile_num].data_end  = bs->buf_max;
+                    parse_tile_data[tile_num].tile_size = 0;
+                }
+                return;
+            }
             obu_header->payload_size -= (tiles_info->tile_size_bytes + tile_size);
         }
         PRINT_FRAME("tile_size", (tile_size));
@@ -435,7 +445,10 @@ void svt_av1_scan_tiles(EbDecHandle *dec_handle_ptr, TilesInfo *tiles_info, ObuH
         parse_tile_data[tile_num].data_end  = bs->buf_max;
         parse_tile_data[tile_num].tile_size = tile_size;
 
-        dec_bits_init(bs, (get_bitsteam_buf(bs) + tile_size), obu_header->payload_size);
+        /* the last tile of the group extends to the end of the payload: nothing is left after it */
+        dec_bits_init(bs,
+                      (get_bitsteam_buf(bs) + tile_size),
+                      (tile_num == tg_end) ? 0 : obu_header->payload_size);
     }
 }
 
